@@ -15,10 +15,48 @@
      * np.quantile (linear interpolation, as the model computes it: sort, index (n-1)*q, floor, interpolate with numpy's two formulas) is
        MONOTONE in q for q >= 0 (QuantileMono.v; ordered-field laws plus the specification of floor, met by the rationals), hence the threshold
        grows with distance_quantile and a larger quantile can only ADD (cold arm, donor) pairs (warm_pairs_monotone_in_quantile).
+     * "since the most recent fit" (FitStatus.v): after fit(D) every current arm is trained exactly when it occurs in D and NO arm is warm, whatever it was
+       before (context-free policies: every state with consistent dictionaries; linear policies: every accepted fit), so cold_arms after fit(D) is exactly the
+       list of arms that do not occur in D and a later warm_start treats them as cold again.
     The laws are also executed on the implementation by the warm-start relation with an independently recomputed threshold. *)
 From Coq Require Import List ZArith Bool Arith QArith Qcanon Permutation.
-From MW Require Import Num Assoc AssocFacts Rng Par CF CFInv CFClean CFForget CFSpec Matrix Lin Warm WarmInv Nbr NbrFacts NbrIndep LshFacts Clu Tree CellFacts Mab FacadeCF FacadeArms MoreFacts NumLaws CFAlg Sim Extra QcInst OrderFacts ExpIrrel LinInv FacadeLin LpInv NbrInv CluTreeInv FacadeAll ToyFacts C09All C10All LinForget LinSim MatrixFacts GaussJordan LinSpec NbrIndepGen CluIndep C17Lin WarmIdem C14More LshScale TreeLeaf Rename PopSpec CopyFacts StatFacts CluBatch LinWarm QuantileMono.
+From MW Require Import Num Assoc AssocFacts Rng Par CF CFInv CFClean CFForget CFSpec Matrix Lin Warm WarmInv Nbr NbrFacts NbrIndep LshFacts Clu Tree CellFacts Mab FacadeCF FacadeArms MoreFacts NumLaws CFAlg Sim Extra QcInst OrderFacts ExpIrrel LinInv FacadeLin LpInv NbrInv CluTreeInv FacadeAll ToyFacts C09All C10All LinForget LinSim MatrixFacts GaussJordan LinSpec NbrIndepGen CluIndep C17Lin WarmIdem C14More LshScale TreeLeaf Rename PopSpec CopyFacts StatFacts CluBatch LinWarm QuantileMono FitStatus.
 Import ListNotations.
+
+Theorem C13_status_after_fit_trained_iff_observed_and_never_warm :
+  forall (R A : Type) (N : Num R) (aeqb : A -> A -> bool),
+  (forall x y : A, aeqb x y = true <-> x = y) ->
+  forall (s : (@cf R A)) (ds : list A) (rs : list R) (a : A),
+  keys_ok s ->
+  c_kind s <> KRandom ->
+  In a (c_arms s) ->
+  aget aeqb (c_status (cf_fit N aeqb s ds rs)) a =
+  Some {| st_trained := amem aeqb a ds; st_warm := false; st_by := None |} /\
+  c_arms (cf_fit N aeqb s ds rs) = c_arms s.
+Proof. exact @cf_fit_status. Qed.
+Print Assumptions C13_status_after_fit_trained_iff_observed_and_never_warm.
+
+Theorem C13_cold_arms_after_fit_are_the_unobserved_arms :
+  forall (R A : Type) (N : Num R) (aeqb : A -> A -> bool),
+  (forall x y : A, aeqb x y = true <-> x = y) ->
+  forall (s : (@cf R A)) (ds : list A) (rs : list R),
+  keys_ok s ->
+  c_kind s <> KRandom ->
+  cold_arms aeqb (cf_fit N aeqb s ds rs) = filter (fun a : A => negb (amem aeqb a ds)) (c_arms s).
+Proof. exact @cf_fit_cold_arms. Qed.
+Print Assumptions C13_cold_arms_after_fit_are_the_unobserved_arms.
+
+Theorem C13_linear_status_after_fit :
+  forall (R A : Type) (N : Num R) (aeqb : A -> A -> bool),
+  (forall x y : A, aeqb x y = true <-> x = y) ->
+  forall (G : Type) (s : (@lin R A G)) (g : G) (ds : list A) (rs : list R) (cx : (@mat R)) (a : A),
+  NoDup (l_arms s) ->
+  In a (l_arms s) ->
+  snd (lin_fit N aeqb s g ds rs cx) = true ->
+  aget aeqb (l_status (fst (lin_fit N aeqb s g ds rs cx))) a =
+  Some {| st_trained := amem aeqb a ds; st_warm := false; st_by := None |}.
+Proof. exact @lin_fit_status. Qed.
+Print Assumptions C13_linear_status_after_fit.
 
 Theorem C13_pairs_are_cold_arm_trained_donor_within_threshold :
   forall (R A : Type) (N : Num R) (aeqb : A -> A -> bool) (trained cold : list A)
